@@ -558,6 +558,35 @@ def api_forms(ctx, rng):
                     ctx.fail(f'api:load:out:{name}', 'out= does not return the requested attributes', {'mesh': mesh_json(m)})
                 m.save(fn, encode_point_data=True)
                 chk('save:encode_point_data', skfem.Mesh.load(fn))
+                # user data together with the encoding options: the user's arrays come back unchanged, the tags too
+                from dataclasses import replace as _rp
+                from skfem.io.meshio import from_meshio as _fm, to_meshio as _tm
+                for epd in (False, True):
+                    for ecd in (True, False):
+                        up, uc = rng.random(m.p.shape[1]), rng.random(m.t.shape[1])
+                        pdat, cdat = {'u': up.copy()}, {'c': [uc.copy()]}
+                        form = f'save:user-data:encode_point_data={epd}:encode_cell_data={ecd}'
+                        want = m if ecd else _rp(m, _boundaries=None, _subdomains=None)
+                        for via in ('file', 'meshio'):
+                            out = ['point_data', 'cell_data']
+                            if via == 'file':
+                                m.save(fn, point_data=pdat, cell_data=cdat, encode_point_data=epd, encode_cell_data=ecd)
+                                M = skfem.Mesh.load(fn, out=out)
+                            else:
+                                M = _fm(_tm(m, pdat, cdat, encode_cell_data=ecd, encode_point_data=epd), out=out)
+                            chk(form + ':' + via, M, want)
+                            gp = out[0].get('u') if isinstance(out[0], dict) else None
+                            gc = out[1].get('c') if isinstance(out[1], dict) else None
+                            if gp is None or not np.array_equal(np.asarray(gp), up) or gc is None \
+                                    or not np.array_equal(np.asarray(gc[0]), uc):
+                                ctx.fail(f'api:user-data-lost:encode_point_data={epd}:encode_cell_data={ecd}:{name}',
+                                         f'point_data / cell_data of the caller do not come back ({via}; point_data keys '
+                                         f'{sorted(out[0]) if isinstance(out[0], dict) else out[0]}, cell_data keys '
+                                         f'{sorted(out[1]) if isinstance(out[1], dict) else out[1]})',
+                                         {'mesh': mesh_json(m), 'encode_point_data': epd, 'encode_cell_data': ecd, 'via': via})
+                            if list(pdat) != ['u'] or list(cdat) != ['c']:
+                                ctx.fail(f'api:caller-dict-changed:{name}', 'the dictionaries of the caller were changed',
+                                         {'mesh': mesh_json(m), 'point_data_keys': list(pdat), 'cell_data_keys': list(cdat)})
                 m.save(fn, encode_cell_data=False)
                 M = skfem.Mesh.load(fn)
                 if M.boundaries is not None or M.subdomains is not None:
